@@ -605,8 +605,12 @@ class DictConverter(t.Generic[FromDataK, FromDataV], Converter[t.Mapping[FromDat
             def _v_into_data(v: t.Any) -> DataType:
                 return self.v_conv.into_data(v)
 
+        def _hashable(k: DataType) -> DataType:
+            # sequence-like keys (e.g. a frozenset) are emitted as lists, which can't be mapping keys: use tuples
+            return tuple(map(_hashable, k)) if isinstance(k, (list, tuple)) else k
+
         return {
-            _k_into_data(k): _v_into_data(v)
+            _hashable(_k_into_data(k)): _v_into_data(v)
             for (k, v) in t.cast(t.Mapping[FromDataK, FromDataV], val).items()
         }
 
